@@ -159,6 +159,42 @@ def grid_designs():
                     d.family = "grid"
                     out.append(d)
     out += index_designs(k)
+    out += func_designs(k + 1000)
+    return out
+
+
+def func_designs(k0=0):
+    """K-grid, helper-function cells: a read-only @s.func helper (optionally reached through a second
+    helper) reads a signal another block (or a net) writes and is called by two or three blocks of the
+    component; the only thing ordering the writer before EVERY caller is the footprint each caller
+    inherits from the helper."""
+    out = []
+    k = k0
+    for chain in ("direct", "nested", "mixed"):
+        for nrd in (2, 3):
+            for sl in (None, (0, 4), (3, 7)):
+                for via in ("blk", "net"):
+                    d = _mk("G%d" % k)
+                    k += 1
+                    a = d.add_sig((), "a", "in", 8)
+                    b = d.add_sig((), "b", "in", 8)
+                    x = d.add_sig((), "x", "wire", 8)
+                    if via == "blk":
+                        blk(d, "w0", (), [as_(View(x), add(rd(View(a)), lit(8, 1), 8))])
+                    else:
+                        conn(d, View(a), View(x), ())
+                    rv = rd(View(x, (), sl))
+                    body = {"k": "zext", "a": rv, "w": 8} if sl else rv
+                    d.funcs.append({"name": "hf", "comp": (), "e": add(body, lit(8, 3), 8)})
+                    d.funcs.append({"name": "hg", "comp": (), "e": xor({"k": "fcall", "f": 0}, rd(View(b)), 8)})
+                    for j in range(nrd):
+                        o = d.add_sig((), "o%d" % j, "out", 8)
+                        f = {"direct": 0, "nested": 1, "mixed": j % 2}[chain]
+                        blk(d, "r%d" % j, (), [as_(View(o), add({"k": "fcall", "f": f}, lit(8, 16 * j + 5), 8))])
+                    oz = d.add_sig((), "oz", "out", 8)
+                    blk(d, "r9", (), [as_(View(oz), add(rd(View(d.sigs[3])), lit(8, 1), 8))])
+                    d.family = "grid"
+                    out.append(d)
     return out
 
 
@@ -284,6 +320,27 @@ def ff_designs():
                 st = {"k": "if", "c": rd(View(en)), "th": [st], "el": []}
             blk(d, "f%d" % j, (), [st], "ff")
         blk(d, "c0", (), [as_(View(o), xor(rd(View(regs[0])), rd(View(regs[n - 1])), 4))])
+        d.family = "ff"
+        out.append(d)
+    # many data-dependent (branchy) flip-flop blocks: Mamba2020 partitions them into meta blocks
+    for n in (8, 10, 15):
+        d = _mk("F%d" % k)
+        k += 1
+        a = d.add_sig((), "a", "in", 4)
+        regs = [d.add_sig((), "r%d" % j, "out", 4) for j in range(n)]
+        o = d.add_sig((), "o", "out", 4)
+        for r_ in regs:
+            r_.reg = True
+        for j in range(n):
+            src = add(rd(View(regs[j - 1])), lit(4, 1), 4) if j else add(rd(View(a)), rd(View(regs[n - 1])), 4)
+            cond = rd(View(a, (), (j % 4, j % 4 + 1)))
+            st = {"k": "if", "c": cond, "th": [as_(View(regs[j]), src)],
+                  "el": [as_(View(regs[j]), xor(rd(View(regs[j])), lit(4, 1), 4))] if j % 3 == 0 else []}
+            blk(d, "f%d" % j, (), [st], "ff")
+        acc = rd(View(regs[0]))
+        for j in range(1, n):
+            acc = xor(acc, rd(View(regs[j])), 4)
+        blk(d, "c0", (), [as_(View(o), acc)])
         d.family = "ff"
         out.append(d)
     # swap + twice assigned + struct + list + nets
